@@ -403,6 +403,11 @@ C04_AckAfterHandover ==
        /\ (\E k \in 1..(Len(handles) \div 2) : handles[2 * k].seq < sends[i].seq))
       => \E h \in 1..Len(handled) : handled[h].tag = sends[i].tag
 
+\* "messages the protocol cannot carry (... payload over the configured maximum) are rejected before anything is
+\* written" -- also a message that was accepted into the retrying client's queue while no connection existed (c05h)
+MaxPayload == IF "maxPayload" \in DOMAIN Cfg THEN Cfg.maxPayload ELSE 0
+C05_NoOversizePublish == (fresh = "Write" /\ wire[NW].p = "PUBLISH" /\ MaxPayload > 0) => wire[NW].plen <= MaxPayload
+
 \* ---- C17 ---------------------------------------------------------------
 \* Handle calls are made by one goroutine: k-th call = handles[2k-1] (call) and handles[2k] (ret).
 NH == Len(handles) \div 2
@@ -450,7 +455,7 @@ Obs == [
   C03_OrderPerConn |-> C03_OrderPerConn, C03_FirstTxOrder |-> C03_FirstTxOrder, C03_FirstDeliveryOrder |-> C03_FirstDeliveryOrder,
   C08_StableSubs |-> C08_StableSubs, C08_NoResubUnlessDue |-> C08_NoResubUnlessDue,
   C12_DupFlag |-> C12_DupFlag, C12_SameOnRetx |-> C12_SameOnRetx, C12_NoPubAfterRel |-> C12_NoPubAfterRel,
-  C12_NoQoS0Retx |-> C12_NoQoS0Retx, C12_RelHasPublish |-> C12_RelHasPublish, C12_AsSubmitted |-> C12_AsSubmitted, C15_PresetIdKept |-> C15_PresetIdKept, C15_NonZeroId |-> C15_NonZeroId, C05_PacketsWellFormed |-> C05_PacketsWellFormed, C19_TimeoutTyped |-> C19_TimeoutTyped, C19_ConnectCtxErr |-> C19_ConnectCtxErr,
+  C12_NoQoS0Retx |-> C12_NoQoS0Retx, C12_RelHasPublish |-> C12_RelHasPublish, C12_AsSubmitted |-> C12_AsSubmitted, C15_PresetIdKept |-> C15_PresetIdKept, C15_NonZeroId |-> C15_NonZeroId, C05_PacketsWellFormed |-> C05_PacketsWellFormed, C05_NoOversizePublish |-> C05_NoOversizePublish, C19_TimeoutTyped |-> C19_TimeoutTyped, C19_ConnectCtxErr |-> C19_ConnectCtxErr,
   C04_AckAfterHandover |-> C04_AckAfterHandover, C17_RightHandler |-> C17_RightHandler, C17_AtMostOnce |-> C17_AtMostOnce, C17_NoneDropped |-> C17_NoneDropped, C17_HandleReturns |-> C17_HandleReturns,
   C18_TimeoutClosesAndReports |-> C18_TimeoutClosesAndReports, C18_NoStall |-> C18_NoStall ]
 
